@@ -302,6 +302,48 @@ pub fn counting(r: &mut Runner) {
             return;
         }
     }
+    // long haystacks with periodic matches: per-lane counters and block
+    // structures of a counting kernel only show up after thousands of bytes
+    // with the needle recurring in the same lane of every vector
+    if r.tier != Tier::Miri {
+        let sizes: &[usize] = if r.tier == Tier::Thorough {
+            &[4096, 8191, 8192, 8193, 8223, 16384, 16389, 40000, 70001, 262144 + 7]
+        } else {
+            &[4096, 8192, 8193, 8223, 16389, 70001]
+        };
+        let periods: &[usize] = &[1, 2, 4, 8, 16, 32, 33, 64, 3, 255, 256];
+        for &len in sizes {
+            for &per in periods {
+                unit += 1;
+                if !r.mine(unit) {
+                    continue;
+                }
+                for (ni, &nb) in [0x00u8, b'\n', 0xFF].iter().enumerate() {
+                    let miss = nb ^ 0x80;
+                    buf.clear();
+                    for i in 0..len {
+                        buf.push(if i % per == (ni * 7) % per { nb } else { miss });
+                    }
+                    let nd = [nb];
+                    for place in [Place::GuardR, Place::GuardL, Place::Arena(1), Place::Arena(17), Place::Heap] {
+                        for &api in &apis {
+                            r.run0(api, &buf, &nd, place, Place::Heap, true);
+                        }
+                    }
+                    // the same through partially consumed iterators
+                    let iapis: Vec<Api> = iter_apis(r).into_iter().filter(|a| a.n == 1).collect();
+                    for ops in [&b"k"[..], b"nk", b"bk", b"nnbbk", b"nbnbnbnbk"] {
+                        for &api in &iapis {
+                            r.run(api, &buf, &[nb, 0, 0], [0; 4], ops, Place::GuardR, Place::Heap, true);
+                        }
+                    }
+                }
+                if r.stop() {
+                    return;
+                }
+            }
+        }
+    }
     // partially consumed iterators: i nexts, j next_backs, then count()
     let iapis: Vec<Api> = iter_apis(r).into_iter().filter(|a| a.n == 1).collect();
     let plens: Vec<usize> = match r.tier {
@@ -394,7 +436,21 @@ pub fn sub_iters(r: &mut Runner) {
     let mut hay = Vec::new();
     let mut k = 0u64;
     for nd in overl.iter() {
-        for base in [&b"a"[..], b"ab", b"aab", b"aba", b"abc", b"aabaa"] {
+        for base in [
+            &b"a"[..],
+            b"ab",
+            b"aab",
+            b"aba",
+            b"abc",
+            b"aabaa",
+            // bytes with the high bit set, UTF-8 continuation / lead bytes,
+            // NUL and 0xFF: nothing in these searches may depend on the
+            // encoding of the haystack
+            b"\x80",
+            b"a\xbf",
+            b"\xc3\xa9l",
+            b"\xff\x00\x80",
+        ] {
             let lens: Vec<usize> = if lvl == 0 { vec![0, 9, 40] } else { (0..=70).chain([100, 127, 128, 129, 200, 300, 1000]).collect() };
             for hl in lens {
                 k += 1;
